@@ -113,7 +113,7 @@ pub fn explains(kind: &str, t: &BTreeSet<&'static str>, is_map: bool) -> Option<
     match kind {
         // exact per-event attribution happens inside the monitors (R4, R5, R6); whatever reaches
         // here from these monitors is unexplained
-        "vop" | "vmerge" | "serde" | "shadow" | "ctx" | "coherence" | "seq" | "order" | "mono" | "harness" | "eqsound" | "panic" => return None,
+        "vop" | "vmerge" | "serde" | "shadow" | "ctx" | "coherence" | "seq" | "order" | "mono" | "harness" | "eqsound" | "panic" | "opdot" => return None,
         _ => {}
     }
     let structural = matches!(kind, "dupeq" | "staleeq" | "eq" | "residue");
